@@ -205,4 +205,5 @@ func main() {
 	genRpmFlags(repo, out)
 	genStrFns(repo, out)
 	genArchFns(repo, out)
+	genBoolFns(repo, out)
 }
